@@ -35,6 +35,7 @@ PYVC_ASSUMPTIONS = [
     "pyvc: id(obj) of a new object is an integer that is not the id of any object alive (ghost predicate alive); ids of nodes/edges stored in a graph are alive when the contract requires nodes_alive",
     "pyvc: hash() is consistent with == for keys (str, ids, frozen dataclasses, hashable domain values)",
     "pyvc: str is an uninterpreted sort with equality; string literals are pairwise distinct",
+    "pyvc: a local first assigned inside a `for` body is taken to be bound after the loop (Python's UnboundLocalError after zero iterations is not modelled)",
     "pyvc: quantified VCs are discharged by z3's E-matching/MBQI under a deterministic rlimit, then cvc5; `unknown` is never reported as proved",
 ]
 PYVC_TRUSTED = ["vf/pyvc symbolic executor and its encoding of Python values (sorts.py) -- validated by seeded code mutants and false-postcondition canaries, not verified",
